@@ -1298,7 +1298,9 @@ func selfTest(r *common.Run) ([]uint64, []int) {
 		}
 		if failed == nil {
 			if !have[1] {
-				common.Infra("the scripted generator does not control the tower heights any more: static menu %#x gives heights %v (want %v) and no candidate answer yields height 1", menu, got, want)
+				// not even height 1 can be produced: every answer gives the same (or a few other) heights
+				r.Incomplete(fmt.Sprintf("randomLevel yields no tower of height 1 for any probed answer (heights seen: %v): the tower-height menu is reduced to what it yields", have))
+				pick[1], have[1] = best, true
 			}
 			if !have[2] || !have[3] || bestH < 4 {
 				// the current randomLevel cannot produce every small height (it is still free to choose
@@ -1328,7 +1330,7 @@ func selfTest(r *common.Run) ([]uint64, []int) {
 			source = "probed (randomLevel no longer maps the static menu to heights 1,2,3,high)"
 			for _, name := range []string{"SkipList", "SkipListWithCmp"} {
 				if probes[name](0, true) != 1 && failed == nil {
-					common.Infra("default answer %#x does not give height 1 on %s", defaultWord, name)
+					r.Incomplete(fmt.Sprintf("the default answer %#x does not give height 1 on %s", defaultWord, name))
 				}
 			}
 		}
